@@ -6,6 +6,7 @@ import (
 
 	"github.com/paulmach/orb"
 	"github.com/paulmach/orb/encoding/mvt"
+	"github.com/paulmach/orb/geo"
 	"github.com/paulmach/orb/geojson"
 	"github.com/paulmach/orb/planar"
 	"github.com/paulmach/orb/simplify"
@@ -113,6 +114,13 @@ func c12genLine(r *h.Rand) orb.LineString {
 	if len(ls) > 2 && r.P(1, 6) {
 		ls[len(ls)-1] = ls[0] // coincident endpoints
 	}
+	if r.P(1, 6) {
+		// projected-metre scale: large offsets, long chords
+		ox, oy, k := r.Uniform(-2e7, 2e7), r.Uniform(-2e7, 2e7), math.Pow(10, float64(r.Range(0, 5)))
+		for i := range ls {
+			ls[i] = orb.Point{ox + ls[i][0]*k, oy + ls[i][1]*k}
+		}
+	}
 	return ls
 }
 
@@ -122,11 +130,15 @@ func c12threshold(r *h.Rand, ls orb.LineString) float64 {
 		b := ls.Bound()
 		diam = math.Hypot(b.Max[0]-b.Min[0], b.Max[1]-b.Min[1]) + 1
 	}
-	switch r.Intn(7) {
+	switch r.Intn(9) {
 	case 0:
 		return 0
 	case 1:
 		return 1e-12
+	case 7:
+		return []float64{0.1, 0.5, 1}[r.Intn(3)]
+	case 8:
+		return diam * 1e-7
 	case 2:
 		return diam * 2
 	case 3:
@@ -143,7 +155,12 @@ func c12dpBound(c *h.Ctx, name string, in, out orb.LineString, t float64) {
 		return
 	}
 	op := lsToP(out)
-	lim := t*(1+1e-9) + 1e-12
+	ext := 0.0
+	if len(in) > 0 {
+		b := in.Bound()
+		ext = math.Hypot(b.Max[0]-b.Min[0], b.Max[1]-b.Min[1])
+	}
+	lim := t*(1+1e-9) + 1e-12 + 1e-13*ext
 	for _, v := range in {
 		d := exact.DistToPolyline(P{v[0], v[1]}, op, false)
 		if d > lim {
@@ -205,6 +222,61 @@ func init() {
 						}
 						if !isSubsequence(outs[1], outs[0]) {
 							c.Fail("", "Douglas-Peucker: a larger threshold kept a vertex a smaller one dropped", map[string]interface{}{"input": sv(in), "t1": t1, "t2": t2, "out1": sv(outs[0]), "out2": sv(outs[1])})
+						}
+					}
+					// --- generic entry point on a bare ring (and a ring inside a collection) equals the typed Ring method
+					for _, s := range []c12simp{c12dp(t1), c12radial(t1), c12vis(simplify.VisvalingamThreshold(t2*t2), "VisvalingamThreshold"), c12vis(simplify.Visvalingam(t2*t2, r.Range(2, 6)), "Visvalingam(keep)")} {
+						want := s.ring(orb.Ring(cloneLS(in)))
+						g := s.s.Simplify(orb.Ring(cloneLS(in)))
+						gc := s.s.Simplify(orb.Collection{orb.Ring(cloneLS(in))})
+						c.Evals(2)
+						okG := (len(want) == 0 && g == nil)
+						if rg, ok := g.(orb.Ring); ok {
+							okG = bitsEqualPts(rg, want)
+						}
+						if !okG {
+							c.Fail("", "generic Simplify(Ring) differs from the typed Ring method", map[string]interface{}{"simplifier": s.name, "input": sv(in), "typed": sv(want), "generic": sv(g)})
+						}
+						if cc, ok := gc.(orb.Collection); ok && len(cc) == 1 {
+							rg, isRing := cc[0].(orb.Ring)
+							if !((len(want) == 0 && cc[0] == nil) || (isRing && bitsEqualPts(rg, want))) {
+								c.Fail("", "generic Simplify(Collection{Ring}) differs from the typed Ring method", map[string]interface{}{"simplifier": s.name, "input": sv(in), "typed": sv(want), "generic": sv(gc)})
+							}
+						}
+					}
+					// --- Radial with other distance functions: the gap rule is in the caller's metric
+					for _, rs := range []struct {
+						name string
+						s    *simplify.RadialSimplifier
+					}{{"Radial(planar.DistanceSquared)", simplify.Radial(planar.DistanceSquared, t1*t1)}, {"Radial(geo.Distance)", simplify.Radial(geo.Distance, 100+t1*1000)}} {
+						lin := cloneLS(in)
+						if rs.name == "Radial(geo.Distance)" {
+							// lon/lat line near the antimeridian / a pole
+							lin = lin[:0]
+							lon, lat := []float64{179.9, -179.9, 10}[r.Intn(3)], []float64{0, 60, 89.5}[r.Intn(3)]
+							for i := 0; i < len(in); i++ {
+								lon += r.Uniform(-0.002, 0.002)
+								lat += r.Uniform(-0.001, 0.001)
+								if lon > 180 {
+									lon -= 360
+								} else if lon < -180 {
+									lon += 360
+								}
+								lin = append(lin, orb.Point{lon, math.Min(lat, 90)})
+							}
+						}
+						out := rs.s.LineString(cloneLS(lin))
+						c.Eval()
+						if !c12common(c, rs.name, lin, out, "LineString") {
+							continue
+						}
+						if len(lin) > 2 {
+							for i := 0; i+2 < len(out); i++ {
+								if !(rs.s.DistanceFunc(out[i], out[i+1]) > rs.s.Threshold) {
+									c.Fail("", "Radial kept two consecutive vertices not farther apart than the threshold (in the caller's distance function)", map[string]interface{}{"simplifier": rs.name, "threshold": rs.s.Threshold, "input": sv(lin), "output": sv(out), "at": i})
+									break
+								}
+							}
 						}
 					}
 					// --- Radial
